@@ -530,7 +530,7 @@ impl EnB {
 pub struct ObsB {
   pub nt_c10: bool, pub nt_c11: bool, pub nt_c12: bool, pub nt_c19: bool, pub nt_c20: bool,
   pub chords: u64, pub chords_while_held: u64, pub chord_key_held: u64, pub sends: u64, pub tablet_on_while_held: u64, pub tablet_on_while_timer: u64,
-  pub reads_in_tablet_mode: u64, pub timer_disarmed_by_event: u64, pub nochange_while_armed: u64, pub overdue_polls: u64,
+  pub reads_in_tablet_mode: u64, pub timer_disarmed_by_event: u64, pub nochange_while_armed: u64, pub overdue_polls: u64, pub early_polls: u64,
   pub other_property_disagreements: u64,
   pub shape: u64,
 }
@@ -541,9 +541,13 @@ enum Kind { Step, Chord, Tablet }
 /// What the loop owes the virtual keyboard, in order. Events are compared as a stream: the
 /// statement fixes which events are written, once and in which order — not how they are cut into
 /// write calls, nor that a batch is written before the next read (only before the loop waits again).
-struct Group { kind: Kind, evs: VecDeque<Event>, set: Vec<KeyCode>, before: Option<Vec<KeyCode>>, tablet_on: bool }
+struct Group { kind: Kind, evs: VecDeque<Event>, set: Vec<KeyCode>, before: Option<Vec<KeyCode>>, tablet_on: bool,
+  /// a repeat chord that may or may not be due (the loop woke up early and the clock then stood
+  /// inside the interval in which the deadline is known to lie): writing it and not writing it are
+  /// both right; `gen` names the timer it belongs to
+  optional: bool, gen: u64 }
 
-struct Timer { keys: Vec<KeyCode>, lo: u64, hi: u64, iv: u64, delay: u64, anchor_open: bool }
+struct Timer { keys: Vec<KeyCode>, lo: u64, hi: u64, iv: u64, delay: u64, anchor_open: bool, gen: u64 }
 
 pub fn check_trace(l: &Layout, trace: &[Item], result: &Result<(), String>, en: &EnB, obs: &mut ObsB) -> Option<Violation> {
   let mut mapper = Mapper::for_layout(l);
@@ -558,6 +562,7 @@ pub fn check_trace(l: &Layout, trace: &[Item], result: &Result<(), String>, en: 
   let mut last_poll_timed_out = false;
   let mut events_this_wakeup = 0u32;
   let mut tablet_events = 0u32;
+  let mut timer_gen = 0u64;
   let mut sh = H::new();
   let mut first: Option<Violation> = None;
   macro_rules! report { ($label:expr, $at:expr, $detail:expr) => {{
@@ -587,10 +592,12 @@ pub fn check_trace(l: &Layout, trace: &[Item], result: &Result<(), String>, en: 
     match it {
       Item::Register => {}
       Item::Fail { .. } => { failed = true; obs.nt_c20 = true; }
-      Item::Poll { t_in, timeout, res, t_out: _ } => {
+      Item::Poll { t_in, timeout, res, t_out } => {
         // before the loop waits again everything it owes must have been written
         while let Some(g) = pending.pop_front() {
           if group_done(&g) { continue; }
+          // an optional chord that was not begun: the loop did not consider it due yet
+          if g.optional { continue; }
           match g.kind {
             Kind::Step => {
               report!("C10-missing-send", i, format!("the loop went back to waiting without having written the mapper's output {}", group_str(&g)));
@@ -610,6 +617,9 @@ pub fn check_trace(l: &Layout, trace: &[Item], result: &Result<(), String>, en: 
         if let Some(t) = timer.as_mut() { if t.anchor_open { t.hi = t_in.saturating_add(t.delay); t.anchor_open = false; } }
         let mut timeout_ok = true;
         let mut overdue_possible = false;
+        // a wait that ends before the chord can be due ("waits for at most delay_ms") is allowed,
+        // as long as no chord is written before its time
+        let mut early_poll = false;
         if let Some(t) = timer.as_mut() {
           overdue_possible = t.lo <= *t_in;
           match timeout {
@@ -618,7 +628,8 @@ pub fn check_trace(l: &Layout, trace: &[Item], result: &Result<(), String>, en: 
               let d = t_in.saturating_add(*x);
               let exact_ok = *x > 0 && d >= t.lo && d <= t.hi && d > *t_in;
               let overdue_ok = *x <= 1000 && t.lo <= *t_in;
-              if !(exact_ok || overdue_ok) { timeout_ok = false; }
+              if d < t.lo { early_poll = true; obs.early_polls += 1; }
+              else if !(exact_ok || overdue_ok) { timeout_ok = false; }
               else if exact_ok && !overdue_ok { t.lo = d; t.hi = d; }
               else if overdue_ok && !exact_ok { t.hi = t.hi.min(*t_in); }
               else { /* both readings possible: keep the interval */ t.hi = t.hi.min(d.max(*t_in)); }
@@ -645,13 +656,21 @@ pub fn check_trace(l: &Layout, trace: &[Item], result: &Result<(), String>, en: 
             if timer.is_none() { prev_interrupt_or_spurious = true; }
             if let Some(t) = timer.as_mut() {
               if !tablet {
-                let ks: Vec<KeyCode> = t.keys.iter().filter(|k| !held.contains(k)).cloned().collect();
-                if ks.len() != t.keys.len() { obs.chord_key_held += 1; }
-                let mut ch = VecDeque::new();
-                for k in &ks { ch.push_back(Pressed(*k)); }
-                for k in ks.iter().rev() { ch.push_back(Released(*k)); }
-                pending.push_back(Group { kind: Kind::Chord, evs: ch, set: vec![], before: None, tablet_on: false });
-                t.lo += t.iv; t.hi += t.iv;
+                if early_poll && *t_out < t.lo {
+                  // woke up before the deadline can have passed: nothing is owed
+                } else {
+                  let optional = early_poll && *t_out < t.hi;
+                  let ks: Vec<KeyCode> = t.keys.iter().filter(|k| !held.contains(k)).cloned().collect();
+                  if ks.len() != t.keys.len() { obs.chord_key_held += 1; }
+                  let mut ch = VecDeque::new();
+                  for k in &ks { ch.push_back(Pressed(*k)); }
+                  for k in ks.iter().rev() { ch.push_back(Released(*k)); }
+                  let empty = ch.is_empty();
+                  pending.push_back(Group { kind: Kind::Chord, evs: ch, set: vec![], before: None, tablet_on: false, optional, gen: t.gen });
+                  if !optional { t.lo = t.lo.saturating_add(t.iv); t.hi = t.hi.saturating_add(t.iv); }
+                  // an optional empty chord leaves no trace either way: the deadline is the old one or the next one
+                  else if empty { t.hi = t.hi.saturating_add(t.iv); }
+                }
               } else { timer = None; }
             }
           }
@@ -667,11 +686,11 @@ pub fn check_trace(l: &Layout, trace: &[Item], result: &Result<(), String>, en: 
             if events_this_wakeup >= 2 { obs.nt_c10 = true; }
             if !tablet {
               let sr = mapper.step(e.clone());
-              if !sr.events.is_empty() { pending.push_back(Group { kind: Kind::Step, evs: sr.events.into_iter().collect(), set: vec![], before: None, tablet_on: false }); }
+              if !sr.events.is_empty() { pending.push_back(Group { kind: Kind::Step, evs: sr.events.into_iter().collect(), set: vec![], before: None, tablet_on: false, optional: false, gen: 0 }); }
               match sr.repeat {
                 ResultingRepeat::Repeating { keys, delay_ms, interval_ms } => {
                   let delay = (delay_ms as u32 as u64).saturating_mul(1000); let iv = (interval_ms as u32 as u64).saturating_mul(1000);
-                  timer = Some(Timer { keys, lo: t_out.saturating_add(delay), hi: u64::MAX, iv, delay, anchor_open: true });
+                  timer_gen += 1; timer = Some(Timer { keys, lo: t_out.saturating_add(delay), hi: u64::MAX, iv, delay, anchor_open: true, gen: timer_gen });
                 }
                 ResultingRepeat::Disabled => { if timer.is_some() { obs.timer_disarmed_by_event += 1; } timer = None; }
                 ResultingRepeat::NoChange => { if timer.is_some() { obs.nochange_while_armed += 1; } }
@@ -698,7 +717,7 @@ pub fn check_trace(l: &Layout, trace: &[Item], result: &Result<(), String>, en: 
             // afterwards "mapping resumes as from a fresh start": the model goes on with a brand-new
             // mapper instead of trusting release_all's reset
             mapper = Mapper::for_layout(l);
-            if !vheld.is_empty() { pending.push_back(Group { kind: Kind::Tablet, evs: VecDeque::new(), set: sorted(&vheld), before: None, tablet_on: *on }); }
+            if !vheld.is_empty() { pending.push_back(Group { kind: Kind::Tablet, evs: VecDeque::new(), set: sorted(&vheld), before: None, tablet_on: *on, optional: false, gen: 0 }); }
           }
         }
       }
@@ -717,6 +736,8 @@ pub fn check_trace(l: &Layout, trace: &[Item], result: &Result<(), String>, en: 
         for (ei, e) in evs.iter().enumerate() {
           if adopt_rest { fold1(&mut held, e); continue; }
           while matches!(pending.front(), Some(g) if group_done(g)) { pending.pop_front(); }
+          // an optional chord that the loop does not begin was not due: what is written is judged against what comes next
+          while matches!(pending.front(), Some(g) if g.optional && g.evs.front() != Some(e)) { pending.pop_front(); }
           let kind = match pending.front_mut() {
             None => {
               let rest = evs_str(&evs[ei..]);
@@ -731,6 +752,11 @@ pub fn check_trace(l: &Layout, trace: &[Item], result: &Result<(), String>, en: 
                 Kind::Tablet => { if let Released(k) = e { if let Some(p) = g.set.iter().position(|x| x == k) { g.set.remove(p); true } else { false } } else { false } }
                 _ => { if g.evs.front() == Some(e) { if g.kind == Kind::Chord && g.before.is_none() { g.before = Some(held.clone()); } g.evs.pop_front(); true } else { false } }
               };
+              if ok && g.optional {
+                // the loop considered the chord due: from here on it is owed, and the timer moves on
+                g.optional = false;
+                if let Some(t) = timer.as_mut() { if t.gen == g.gen { t.lo = t.lo.saturating_add(t.iv); t.hi = t.hi.saturating_add(t.iv); } }
+              }
               if !ok {
                 let exp = group_str(g); let kind = g.kind; let got = evs_str(&evs[ei..]);
                 pending.pop_front();
